@@ -92,8 +92,25 @@ def extract():
 
 
 def lean_build(targets, timeout=1500):
-    rc, out, dt = _run(["lake", "build"] + list(targets), cwd=LEAN_DIR, timeout=timeout)
-    return rc, out, dt
+    """`lake build` under an exclusive file lock: two checks started at the same time in one /verif must not compile the
+    same module into the same .lake directory concurrently (seen in round 5: `no such file … Stream.olean` when C07 and
+    C19 both had to build a new Rotation module – reported as a broken tie although nothing was wrong)."""
+    import fcntl
+    lock_path = os.path.join(LEAN_DIR, ".lake-build.lock")
+    t0 = time.time()
+    try:
+        lk = open(lock_path, "w")
+    except OSError:
+        lk = None
+    try:
+        if lk is not None:
+            fcntl.flock(lk, fcntl.LOCK_EX)
+        rc, out, dt = _run(["lake", "build"] + list(targets), cwd=LEAN_DIR, timeout=timeout)
+    finally:
+        if lk is not None:
+            fcntl.flock(lk, fcntl.LOCK_UN)
+            lk.close()
+    return rc, out, time.time() - t0
 
 
 def lean_audit(audit_file, timeout=600):
